@@ -9,3 +9,9 @@ import SynKitProofs.Props.C15
 #print axioms SynKit.Store.removeSpecies_lookup
 #print axioms SynKit.Store.incidence_spec
 #print axioms SynKit.Store.merge_edges
+#print axioms SynKit.Store.addFromStr_spec
+#print axioms SynKit.Store.addFromStr_parse_error
+#print axioms SynKit.Store.parseRxns_spec
+#print axioms SynKit.Store.parseRxns_only_appends
+#print axioms SynKit.Store.parseRxnsRules_length_mismatch
+#print axioms SynKit.Store.suffix_unparsed_example
